@@ -360,10 +360,13 @@ func r024(c *Ctx, r *R) {
 			r.Bad("hook:"+h.field, news[0].Pos(), "the options given to crdt.New have no %s closure: changes landing in the pinset never reach the tracker", h.field)
 			continue
 		}
-		var site *RPCSite
-		for _, rs := range c.RPC {
-			if rs.Fn == g && rs.Resolved && len(rs.Targets) == 1 && rs.Targets[0].Svc == "PinTracker" && rs.Targets[0].Method == h.method {
-				site = rs
+		// the tracker call: a gorpc call site of the closure, or a call of
+		// a wrapper that makes it with the method name it is given
+		var site *rpcUse
+		for _, u := range c.rpcUsesIn(g) {
+			if u.Svc == "PinTracker" && u.Method == h.method {
+				u := u
+				site = &u
 			}
 		}
 		if site == nil {
@@ -380,7 +383,11 @@ func r024(c *Ctx, r *R) {
 			}
 		}
 		r.Check(okPath, "hook:"+h.field+":unconditional", site.Call.Pos(), "the tracker call is skipped only on decode errors", h.field+" skips the tracker call under a condition other than a decode error")
-		arg := callArgs(site.Call.Common())[4]
+		arg := site.Arg
+		if arg == nil {
+			r.Und("hook:"+h.field+":arg", site.Call.Pos(), "the argument of the tracker call could not be followed")
+			continue
+		}
 		if h.field == "PutHook" {
 			// pin.ProtoUnmarshal(v) on the same pin, v = hook parameter
 			ok := false
@@ -520,6 +527,14 @@ func r025(c *Ctx, r *R) {
 			case fn == "(*time.Timer).Stop" && isTimerSel(call.Fun, "Stop"):
 				s &^= bArmed
 				seen["stop"]++
+			case helperTimerEffect(pkg, call, func(e ast.Expr) bool { return isObj(e, timerObj) }) == "stop":
+				// a helper of this package that stops (and drains) the
+				// timer it is given
+				s &^= bArmed
+				seen["stop"]++
+			case helperTimerEffect(pkg, call, func(e ast.Expr) bool { return isObj(e, timerObj) }) == "reset":
+				s |= bArmed
+				seen["reset"]++
 			case bsCall(call) == "Add" || bsCall(call) == "Rm":
 				s |= bPend
 				seen["write"]++
@@ -770,4 +785,85 @@ func enqueueHelper(h *ssa.Function) *enqueueSummary {
 		return nil
 	}
 	return sum
+}
+
+// helperTimerEffect: call is a call of a function declared in this package
+// that receives the timer as an argument and, in its own body, only stops it
+// ("stop") or only re-arms it ("reset"); "" otherwise.
+func helperTimerEffect(pkg *packages.Package, call *ast.CallExpr, isTimer func(ast.Expr) bool) string {
+	var id *ast.Ident
+	switch f := ast.Unparen(call.Fun).(type) {
+	case *ast.Ident:
+		id = f
+	case *ast.SelectorExpr:
+		id = f.Sel
+	}
+	if id == nil {
+		return ""
+	}
+	fobj, ok := pkg.TypesInfo.Uses[id].(*types.Func)
+	if !ok || fobj.Pkg() != pkg.Types {
+		return ""
+	}
+	argIdx := -1
+	for i, a := range call.Args {
+		if isTimer(a) {
+			argIdx = i
+		}
+	}
+	if argIdx < 0 {
+		return ""
+	}
+	for _, file := range pkg.Syntax {
+		for _, d := range file.Decls {
+			fd, ok := d.(*ast.FuncDecl)
+			if !ok || fd.Body == nil || pkg.TypesInfo.Defs[fd.Name] != types.Object(fobj) {
+				continue
+			}
+			// the parameter the timer is bound to
+			var pobj types.Object
+			n := 0
+			for _, fl := range fd.Type.Params.List {
+				for _, nm := range fl.Names {
+					if n == argIdx {
+						pobj = pkg.TypesInfo.Defs[nm]
+					}
+					n++
+				}
+			}
+			if pobj == nil {
+				return ""
+			}
+			stops, resets := 0, 0
+			ast.Inspect(fd.Body, func(x ast.Node) bool {
+				c2, ok := x.(*ast.CallExpr)
+				if !ok {
+					return true
+				}
+				se, ok := ast.Unparen(c2.Fun).(*ast.SelectorExpr)
+				if !ok {
+					return true
+				}
+				rid, ok := ast.Unparen(se.X).(*ast.Ident)
+				if !ok || pkg.TypesInfo.ObjectOf(rid) != pobj {
+					return true
+				}
+				switch funcFullName(pkg, c2) {
+				case "(*time.Timer).Stop":
+					stops++
+				case "(*time.Timer).Reset":
+					resets++
+				}
+				return true
+			})
+			switch {
+			case stops > 0 && resets == 0:
+				return "stop"
+			case resets > 0 && stops == 0:
+				return "reset"
+			}
+			return ""
+		}
+	}
+	return ""
 }
